@@ -9,6 +9,30 @@ K = 'bounded model checking of the real code with Kani/CBMC (SAT)'
 M = 'bounded symbolic execution of the real MIR with an SMT solver (mirsym + z3)'
 
 CHECKS = {
+    'C01': dict(engine='M', cat='model_checking',
+                text='bounded symbolic execution of the real scheduler (Work::new, want_file, run, recheck_ready, ready_dependents, BuildStates) on symbolic graphs of 2-4 steps: every wiring/role split/dirty bit/completion order/outcome and symbolic -j/-k; at each start and each dirty judgement the monitor requires every ordering producer settled, no second start, no phony start',
+                note='trusted: environment models of the command runner (scripted executor: which running command finishes next and how is a symbolic choice), Progress, signal, trace; check_build_dirty replaced by a symbolic dirty bit (S-cut); hash-set iteration order explored as a symbolic permutation; failing and sampled passing traces are replayed on the native build through a scripted runner',
+                tech=M + '; schedule, outcomes, -j/-k/depth symbolic', ref='DESIGN.md section 4, C01'),
+    'C04': dict(engine='M', cat='model_checking',
+                text='bounded symbolic execution of the real scheduler with pools: symbolic pool assignment, symbolic 64-bit pool depth and -j; at every command start the running set is checked against -j, the pool depth and the console pool; undeclared pools must surface as the `unknown pool` error',
+                note='trusted: environment models of the command runner (scripted executor: which running command finishes next and how is a symbolic choice), Progress, signal, trace; check_build_dirty replaced by a symbolic dirty bit (S-cut); hash-set iteration order explored as a symbolic permutation; failing and sampled passing traces are replayed on the native build through a scripted runner',
+                tech=M + '; schedule, outcomes, -j/-k/depth symbolic', ref='DESIGN.md section 4, C04'),
+    'C05': dict(engine='M', cat='model_checking',
+                text='bounded symbolic execution of the real scheduler with outcomes Success/Failure/Interrupted at every completion and symbolic -k: containment of failures, recording only of successes, the failure budget, completion of independent steps, and the boolean result of run()',
+                note='trusted: environment models of the command runner (scripted executor: which running command finishes next and how is a symbolic choice), Progress, signal, trace; check_build_dirty replaced by a symbolic dirty bit (S-cut); hash-set iteration order explored as a symbolic permutation; failing and sampled passing traces are replayed on the native build through a scripted runner',
+                tech=M + '; schedule, outcomes, -j/-k/depth symbolic', ref='DESIGN.md section 4, C05'),
+    'C06': dict(engine='M', cat='model_checking',
+                text="bounded symbolic execution of the real scheduler: termination of every path, unreachability of the internal `BUG` panic, and want_file's cycle error exactly for requests that contain an ordering cycle (cycles through validation edges accepted), on graphs whose inputs may name any file",
+                note='trusted: environment models of the command runner (scripted executor: which running command finishes next and how is a symbolic choice), Progress, signal, trace; check_build_dirty replaced by a symbolic dirty bit (S-cut); hash-set iteration order explored as a symbolic permutation; failing and sampled passing traces are replayed on the native build through a scripted runner',
+                tech=M + '; schedule, outcomes, -j/-k/depth symbolic', ref='DESIGN.md section 4, C06'),
+    'C18': dict(engine='M', cat='model_checking',
+                text='bounded symbolic execution of the real want_file/want_every_file/run: the set of steps considered equals the reference closure over explicit, implicit, order-only and validation inputs for every target subset; nothing outside it is examined or started',
+                note='trusted: environment models of the command runner (scripted executor: which running command finishes next and how is a symbolic choice), Progress, signal, trace; check_build_dirty replaced by a symbolic dirty bit (S-cut); hash-set iteration order explored as a symbolic permutation; failing and sampled passing traces are replayed on the native build through a scripted runner',
+                tech=M + '; schedule, outcomes, -j/-k/depth symbolic', ref='DESIGN.md section 4, C18'),
+    'C19': dict(engine='M+K', cat='model_checking',
+                text='bounded symbolic execution of the real scheduler with Progress as monitor: at every update the six counters equal the steps actually in each state, Running equals the commands executing, finished counts never decrease; tasks_run equals successful completions; Kani on StateCounts::add',
+                note='trusted: environment models of the command runner (scripted executor: which running command finishes next and how is a symbolic choice), Progress, signal, trace; check_build_dirty replaced by a symbolic dirty bit (S-cut); hash-set iteration order explored as a symbolic permutation; failing and sampled passing traces are replayed on the native build through a scripted runner',
+                tech=M + '; ' + K, ref='DESIGN.md section 4, C19'),
     'C07': dict(engine='M', cat='model_checking',
                 text='bounded symbolic execution of the real log writer and reader over an in-memory file model: histories of up to 2 (thorough 3) '
                      'recorded steps with symbolic 64-bit hashes, a SYMBOLIC number of surviving bytes (every crash point of every write), '
